@@ -2731,7 +2731,9 @@ template< size_t L> inline
    FixedString< L>& FixedString< L>::replaceImpl( size_t pos1, size_t count1,
       const char* str, size_t pos2, size_t count2) noexcept
 {
-   if (pos1 >= mLength)
+   // a position right behind the last character is valid: the new text is
+   // appended, like std::string does it
+   if (pos1 > mLength)
       return *this;
    size_t  copy_len = count2;
    if (count1 >= mLength - pos1)
